@@ -77,6 +77,11 @@ func ToString(i interface{}) (interface{}, error) {
 	case json.Number:
 		return string(val), nil
 	case time.Time:
+		// RFC 3339 has four-digit years: beyond them Format writes a text that cannot be read back
+		if val.Year() < 0 || val.Year() > 9999 {
+			return nil, fmt.Errorf("%w: %#v (%T)", ErrUnableToCastToString, i, i)
+		}
+
 		return val.Format(TimeStringFormat), nil
 	default:
 		return nil, fmt.Errorf("%w: %#v (%T)", ErrUnableToCastToString, i, i)
